@@ -16,6 +16,8 @@ Decides:
                     own occurrence on the line first: otherwise the typed flag is left for nobody and the choice is
                     decided by the environment instead of by what the user typed (shared with C18).
  O order            construct!([a, b, c]) expands to a left-nested or_else chain in listed order (witness).
+ R scope restore   an adjacent command hands back the scope it was entered with (or its own `name..end`), so the items to the right of
+                    its block stay visible to the next round of `many` (shared with C05: values of a repeated choice follow the line).
 Does not decide: ordering of values collected under many/some."""
 import re
 from core import *
